@@ -171,6 +171,7 @@ type Op struct {
 	Of      int      `json:"of,omitempty"`      // replay: which earlier request (modulo the number built so far)
 	Sender  int      `json:"sender,omitempty"`  // replay: submitting account, -1 = the original one
 	Restart bool     `json:"restart,omitempty"` // end: replica B is re-created from its validator set afterwards
+	Env     bool     `json:"env,omitempty"`     // replay: the fields of the envelope that no signature covers are rewritten (nonce := the submitter's current nonce, time moved)
 }
 
 type AdminCase struct {
@@ -224,11 +225,13 @@ func genVals(t *rapid.T) []ValSpec {
 // ones, so the ordinary choice always comes first and the special shapes last.
 func genSig(t *rapid.T) SigSpec {
 	s := SigSpec{Key: rapid.IntRange(0, nKeys-1).Draw(t, "sigkey"), PubLen: 32, SigLen: 64}
-	switch rapid.SampledFrom([]string{"ok", "ok", "ok", "ok", "ok", "ok", "ok", "ok", "othermsg", "emptymsg", "pubshort", "publong", "sigshort", "siglong", "flip"}).Draw(t, "sigshape") {
+	switch rapid.SampledFrom([]string{"ok", "ok", "ok", "ok", "ok", "ok", "ok", "ok", "othermsg", "earliermsg", "emptymsg", "pubshort", "publong", "sigshort", "siglong", "flip"}).Draw(t, "sigshape") {
 	case "othermsg":
 		s.Msg = "power"
 	case "emptymsg":
 		s.Msg = "empty"
+	case "earliermsg":
+		s.Msg = "earlier"
 	case "pubshort":
 		s.PubLen = rapid.SampledFrom([]int{31, 0, 1}).Draw(t, "publen")
 	case "publong":
@@ -283,7 +286,7 @@ func genReq(t *rapid.T, prev *ReqSpec) *ReqSpec {
 	if r.Cmd == "add_peer" {
 		r.Self = rapid.SampledFrom([]string{"", "", "", "", "", "", "", "", "none", "wrongmsg", "otherkey"}).Draw(t, "self")
 	}
-	r.Quorum = rapid.SampledFrom([]string{"all", "", "all", "allbutone", "", "heaviest-repeated", "all"}).Draw(t, "quorum")
+	r.Quorum = rapid.SampledFrom([]string{"all", "", "all", "allbutone", "", "heaviest-repeated", "all", "all-earlier"}).Draw(t, "quorum")
 	if r.Quorum == "heaviest-repeated" {
 		r.Repeat = rapid.IntRange(2, 6).Draw(t, "repeat")
 	}
@@ -321,7 +324,7 @@ func genAdminCase(t *rapid.T) AdminCase {
 			c.Ops = append(c.Ops, Op{Kind: "req", Req: prev})
 			reqs++
 		case "replay":
-			c.Ops = append(c.Ops, Op{Kind: "replay", Of: rapid.IntRange(0, reqs-1).Draw(t, "of"), Sender: rapid.IntRange(-1, nAccts-1).Draw(t, "replaysender")})
+			c.Ops = append(c.Ops, Op{Kind: "replay", Of: rapid.IntRange(0, reqs-1).Draw(t, "of"), Sender: rapid.IntRange(-1, nAccts-1).Draw(t, "replaysender"), Env: rapid.IntRange(0, 2).Draw(t, "env") == 0})
 		default:
 			c.Ops = append(c.Ops, Op{Kind: "end", Restart: rapid.IntRange(0, 2).Draw(t, "restart") == 0})
 		}
@@ -437,6 +440,7 @@ type built struct {
 	selfOK      bool
 	targetKnown bool
 	nEntries    int
+	cmd         types.AdminOPCmd // the envelope as sent (for resubmissions with rewritten unsigned fields)
 }
 
 var fixedTime = time.Unix(1500000000, 0).UTC()
@@ -456,6 +460,12 @@ func signBytes(k int, msg []byte) []byte {
 	s := keys[k].priv.Sign(msg).(crypto.SignatureEd25519)
 	return append([]byte{}, s[:]...)
 }
+
+// earlierMsgs holds the command messages of the requests built so far in the running case (reset
+// by the legs at the start of a case): a signature entry of shape "earlier" is a genuine
+// signature of its key over the message of an EARLIER request - what anybody can copy out of a
+// request that was on the chain.
+var earlierMsgs [][]byte
 
 // buildReq turns a spec into client bytes. curNonce(acct) is the account's nonce now.
 func buildReq(spec ReqSpec, m *model, nonceOf func(int) uint64) *built {
@@ -496,6 +506,10 @@ func buildReq(spec ReqSpec, m *model, nonceOf func(int) uint64) *built {
 			}
 			specs = append(specs, SigSpec{Key: k, PubLen: 32, SigLen: 64})
 		}
+	case "all-earlier":
+		for _, k := range pos {
+			specs = append(specs, SigSpec{Key: k, Msg: "earlier", PubLen: 32, SigLen: 64})
+		}
 	case "heaviest-repeated":
 		if len(pos) > 0 {
 			for i := 0; i < spec.Repeat; i++ {
@@ -516,6 +530,11 @@ func buildReq(spec ReqSpec, m *model, nonceOf func(int) uint64) *built {
 			signed = msgOther
 		case "empty":
 			signed = []byte{}
+		case "earlier":
+			signed = msgOther
+			if len(earlierMsgs) > 0 {
+				signed = earlierMsgs[len(earlierMsgs)-1]
+			}
 		}
 		sig := signBytes(s.Key, signed)
 		if s.Flip {
@@ -534,6 +553,7 @@ func buildReq(spec ReqSpec, m *model, nonceOf func(int) uint64) *built {
 		cmd.SInfos = append(cmd.SInfos, types.SigInfo{PubKey: sentPub, Signature: sentSig})
 	}
 	b.nEntries = len(specs)
+	earlierMsgs = append(earlierMsgs, msg)
 	if spec.Cmd == "add_peer" {
 		switch spec.Self {
 		case "":
@@ -545,6 +565,7 @@ func buildReq(spec ReqSpec, m *model, nonceOf func(int) uint64) *built {
 			cmd.SelfSign = signBytes((spec.Target+1)%nKeys, msg)
 		}
 	}
+	b.cmd = cmd
 	js, _ := json.Marshal(&cmd)
 	switch spec.Raw {
 	case "trunc":
@@ -700,7 +721,11 @@ func (m *model) judge(b *built, sender int, pre uint64) verdict {
 func (b *built) specOf(i int) SigSpec {
 	q := b.nEntries - len(b.spec.Sigs)
 	if i < q {
-		return SigSpec{Key: b.entries[i].key, PubLen: 32, SigLen: 64}
+		sp := SigSpec{Key: b.entries[i].key, PubLen: 32, SigLen: 64}
+		if b.spec.Quorum == "all-earlier" {
+			sp.Msg = "earlier"
+		}
+		return sp
 	}
 	return b.spec.Sigs[i-q]
 }
@@ -1035,6 +1060,7 @@ func runAdminCase(c AdminCase, x *h.Ctx) {
 	}
 
 	nonceOf := func(a int) uint64 { return m.nonce[a] }
+	earlierMsgs = nil
 	for i, op := range c.Ops {
 		switch op.Kind {
 		case "req":
@@ -1058,7 +1084,21 @@ func runAdminCase(c AdminCase, x *h.Ctx) {
 			}
 			nReplay++
 			nontrivial = true
-			if submit(b, s, fmt.Sprintf("op %d (byte-identical resubmission of request %d by acct%d)", i, j, s)) {
+			what := "byte-identical resubmission"
+			if op.Env && b.spec.Raw == "" {
+				// the same signed message and signatures; the envelope fields that nothing signs carry
+				// what a replayer would like the node to believe
+				cp := *b
+				env := b.cmd
+				env.Nonce = m.nonce[s]
+				env.Time = env.Time.Add(time.Hour)
+				js, _ := json.Marshal(&env)
+				cp.tx = types.TagAdminOPTx(js)
+				b = &cp
+				what = "resubmission with rewritten unsigned envelope fields"
+				x.Label("seq:replay-with-rewritten-envelope")
+			}
+			if submit(b, s, fmt.Sprintf("op %d (%s of request %d by acct%d)", i, what, j, s)) {
 				return
 			}
 		case "end":
